@@ -5,6 +5,14 @@ props=[json.loads(l) for l in open('/verif/properties.jsonl')]
 ids=[p['id'] for p in props]
 TECH="bounded symbolic execution of the Go SSA of the real code (own engine gosym) with SMT-decided path conditions and assertions (z3 5.1 bit-vectors); counterexamples replayed natively"
 claimed={
+ "C04": dict(
+   text="Bounded symbolic model checking of the in-process diagnosis pipeline CircleDetect -> CheckAll -> ResolveSymbols (sdk/invoke.go order) on a three-file include diamond: whenever an in-harness reference predicate says the program is broken (reference that names no type / value / service written as a FREE byte string, duplicate globals of every kind pair with free names in any file, duplicate field ids or names in struct/union/exception/argument/throws lists with free i32 ids, enum with free names and i64 numbers incl. the int32 range, oneway that returns or throws, second union default, typedef cycles with and without a constant selecting through them, include cycles of 1..3 files) the pipeline returns an error, never panics, overflows the stack or exceeds the step bound.",
+   note="Only the error direction is asserted. Outside the technique: the process itself (exit status of the binary, 'no file written', hangs of the real process, message text), syntax errors (C03's error branch), constant/default type checks inside the Go backend (need BuildScope + text/template), command-line parsing. Bounds: one free reference at a time (<=4..6 bytes), 3 typedefs, <=3 files.",
+   ref="6 C04"),
+ "C05": dict(
+   text="Bounded symbolic model checking of semantic.ResolveSymbols/Deref on a three-file include diamond with same local names in two files and typedef chains crossing files: for every spelling of a type reference (7 positions), constant identifier (4 positions) or base service as a FREE byte string of the stated length, when an in-harness reference resolver (plain loops over a hand-written model) finds exactly one binding, resolution succeeds and records exactly that category, typedef flag, include index/name, constant binding (IsEnum, Index, Name, Sel), include usage and Deref target; the result is independent of three permutations of the definition order.",
+   note="Bounds: one free reference at a time, n<=4/5 bytes (types), <=5/6 (values), <=3/4 (extends); definition names are single letters. Trusted: own SSA interpreter + z3, the hand-written reference resolver.",
+   ref="6 C05"),
  "C03": dict(
    text="Bounded symbolic model checking of parser.ParseString (the PEG rule closures and the tree walk, from go/ssa): totality (no panic, AST xor error, termination within the step bound) for every string 'context + N free bytes' in 34 syntactic contexts; explicit and implicit field ids / enum values for all 8 spellings with free digits in structs, unions, exceptions, argument and throws lists; literal unescaping for every body of the stated length in 5 positions and both quote kinds against the documented rule; annotation accumulation; independence of the AST from whitespace, comments and list separators at every token boundary of a 190-token document.",
    note="Bounds: N<=2 free bytes quick, <=3 thorough (the 64 KiB of the statement is far outside); literal bodies <=3/4 bytes; one layout hole at a time with 1-2 free whitespace bytes or a comment with <=1/2 free bytes. Oracles are in-harness reference code. Trusted: own SSA interpreter + z3; strconv.ParseFloat digits are enumerated by the solver rather than encoded. Leading-zero decimal spellings are not generated.",
